@@ -12,24 +12,25 @@ namespace Proofs.Mvp60Sl
 open Model Model.Mvp60
 open Model.Seq (App Halt Arch stepArch runMvp1 mvp1Fetch)
 
-theorem cycle_simG (app : App) (hp : ProgG app) (a0 : Arch) (s s' : State) (a : Arch) (k : Nat) (ev : Event)
+theorem cycle_simG (app : App) (hp : ProgJ app) (a0 : Arch) (hT : ∀ k a, Proofs.Mvp4.seqIter app k a0 = some a → TgtOk app a)
+    (s s' : State) (a : Arch) (k : Nat) (ev : Event)
     (hk : Proofs.Mvp4.seqIter app k a0 = some a) (hr : RelG app s a ∨ RelB app s a ∨ RelF app s a) (h : cycle app s = (s', ev)) :
     TickPostG app a0 s' ev := by
   unfold cycle at h
   split at h
   · rename_i r hr'
     subst h
-    exact cycleM_simG app hp a0 s _ a k _ hk hr hr'
+    exact cycleM_simG app hp a0 hT s _ a k _ hk hr hr'
   · simp only [Prod.mk.injEq] at h; obtain ⟨rfl, rfl⟩ := h; trivial
   · simp only [Prod.mk.injEq] at h; obtain ⟨rfl, rfl⟩ := h; trivial
 
 theorem cycle_simR (app : App) (hp : ProgR app) (a0 : Arch) (s s' : State) (a : Arch) (k : Nat) (ev : Event)
     (hk : Proofs.Mvp4.seqIter app k a0 = some a) (hr : Rel app s a ∨ RelB app s a) (h : cycle app s = (s', ev)) :
     TickPost app a0 s' ev :=
-  (cycle_simG app hp.toG a0 s s' a k ev hk
+  (cycle_simG app hp.toG.toJ a0 (fun _ a _ => tgtOk_of_proved app hp.toG.cls a) s s' a k ev hk
     (by rcases hr with h1 | h1
         · exact Or.inl (h1.strong (noCond_of_slr app hp.sl))
-        · exact Or.inr (Or.inl h1)) h).weak
+        · exact Or.inr (Or.inl h1)) h).weak (noCond_of_slr app hp.sl)
 
 theorem cycle_sim (app : App) (hp : Prog app) (a0 : Arch) (s s' : State) (a : Arch) (k : Nat) (ev : Event)
     (hk : Proofs.Mvp4.seqIter app k a0 = some a) (hr : Rel app s a) (h : cycle app s = (s', ev)) :
@@ -39,25 +40,26 @@ theorem cycle_sim (app : App) (hp : Prog app) (a0 : Arch) (s s' : State) (a : Ar
 /-- what a finished run has to do with the unpipelined run from `a0` -/
 def RunPost (app : App) (a0 : Arch) (r : Result) : Prop :=
   match r.halt with
-  | some .offEnd => ∃ k a, Proofs.Mvp4.seqIter app k a0 = some a ∧ (∃ c, stepArch Proofs.Mvp4.dc app a = .halt .offEnd c) ∧
+  | some .offEnd => ∃ k a, Proofs.Mvp4.seqIter app k a0 = some a ∧ (NoJmp app → ∃ c, stepArch Proofs.Mvp4.dc app a = .halt .offEnd c) ∧
       r.final.ctx.Registers = a.ctx.Registers ∧ r.final.ctx.Memory = a.ctx.Memory
   | some .ret => ∃ k a, Proofs.Mvp4.seqIter app k a0 = some a ∧ (∃ c, stepArch Proofs.Mvp4.dc app a = .halt .ret c) ∧
       r.final.ctx.Registers = a.ctx.Registers ∧ r.final.ctx.Memory = a.ctx.Memory
   | some .err => ∃ k a, Proofs.Mvp4.seqIter app k a0 = some a ∧ ∃ c, stepArch Proofs.Mvp4.dc app a = .halt .err c
   | _ => True
 
-theorem runFrom_sim (app : App) (hp : ProgG app) (a0 : Arch) : ∀ (fuel : Nat) (s : State) (n k : Nat) (a : Arch),
+theorem runFrom_sim (app : App) (hp : ProgJ app) (a0 : Arch) (hT : ∀ k a, Proofs.Mvp4.seqIter app k a0 = some a → TgtOk app a) :
+    ∀ (fuel : Nat) (s : State) (n k : Nat) (a : Arch),
     Proofs.Mvp4.seqIter app k a0 = some a → (RelG app s a ∨ RelB app s a ∨ RelF app s a) → RunPost app a0 (runFrom app fuel s n)
   | 0, s, n, k, a, _, _ => by simp [runFrom, RunPost]
   | fuel + 1, s, n, k, a, hk, hr => by
     unfold runFrom
     cases hc : cycle app s with
     | mk s' ev =>
-      have hpost := cycle_simG app hp a0 s s' a k ev hk hr hc
+      have hpost := cycle_simG app hp a0 hT s s' a k ev hk hr hc
       cases ev with
       | running =>
         obtain ⟨k', a', hk', hr'⟩ := hpost
-        exact runFrom_sim app hp a0 fuel s' (n + 1) k' a' hk' hr'
+        exact runFrom_sim app hp a0 hT fuel s' (n + 1) k' a' hk' hr'
       | done h =>
         cases h with
         | ret => exact hpost
@@ -80,9 +82,11 @@ theorem init_relG (app : App) (ctx : Model.Context) (hc : CtxOk ctx) (eu wu : Na
   refine ⟨{ ctx := ctx, mmu := u, eus := List.replicate eu {}, wus := List.replicate wu {} }, ?_, ?_⟩
   · simp only [init, hu, bind, Except.bind, pure, Except.pure]
   · refine ⟨⟨0, rfl, ?_⟩, ?_, ?_, ?_, rfl, Nat.zero_le _, Nat.zero_le _, ?_, rfl, rfl, rfl, Nat.zero_le _, ?_, Nat.zero_le _, hl, rfl,
-      (fun _ x hx => by cases hx), (fun e he => by cases he), ⟨hsid, (fun _ _ r hr => by cases hr), (fun _ _ ec hec => by cases hec)⟩,
+      (fun _ x hx => by cases hx), (fun e he => by cases he), ⟨hsid, (fun _ _ r hr => by cases hr)⟩,
+      (fun _ _ => Or.inl (fun ec hec => by cases hec)),
       Or.inr (Or.inr ⟨rfl, (fun e he => by cases he), Nat.zero_le _, (fun pre b post hl => by cases pre <;> cases hl), rfl⟩)⟩
-    · refine ⟨trivial, Nat.zero_le _, ⟨0, trivial, rfl, Or.inl rfl, ?_, ?_, ?_, ?_⟩, rfl, rfl, rfl⟩
+    · refine ⟨trivial, Nat.zero_le _, rfl, fun _ => ⟨⟨0, trivial, rfl, Or.inl rfl, ?_, ?_, ?_, ?_⟩, fun r hr => by cases hr⟩,
+        (fun h => by cases h), fun _ => ⟨rfl, rfl⟩⟩
       · show 0 + 0 + 0 ≤ app.instrs.length + 2; omega
       · intro _; exact Nat.zero_le _
       · intro _; exact Nat.zero_le _
@@ -102,16 +106,58 @@ theorem init_rel (app : App) (ctx : Model.Context) (hc : CtxOk ctx) (eu wu : Nat
   obtain ⟨u, hu, hl⟩ := new_ok
   refine ⟨{ ctx := ctx, mmu := u, eus := List.replicate eu {}, wus := List.replicate wu {} }, ?_, ?_⟩
   · simp only [init, hu, bind, Except.bind, pure, Except.pure]
-  · refine ⟨⟨0, rfl, ?_⟩, fun hs hk1 => ?_⟩
+  · refine ⟨⟨0, rfl, ?_⟩, fun hn => ?_⟩
     · refine ⟨trivial, Nat.zero_le _, ⟨0, trivial, rfl, Or.inl rfl, ?_, ?_, ?_, ?_⟩, rfl, rfl, rfl⟩
       · show 0 + 0 + 0 ≤ app.instrs.length + 2; omega
       · intro _; exact Nat.zero_le _
       · intro _; exact Nat.zero_le _
       · intro h; cases h
-    · obtain ⟨s0, h0, hr0⟩ := init_relG app ctx hc eu wu hk hs.sid
+    · obtain ⟨s0, h0, hr0⟩ := init_relG app ctx hc eu wu hk (Or.inr hn)
       simp only [init, hu, bind, Except.bind, pure, Except.pure, Except.ok.injEq] at h0
       subst h0
       exact hr0
+
+/-- **MVP-6.0 on register-only programs with branches, jumps and calls** (package R60c), every number of execute and write
+units: what a finished run of the model has to do with the unpipelined run (`RunPost`): a run that ends with `ret` or with
+the defined error ends where the unpipelined machine ends, with its registers and memory; a run that ends "past the end" has
+the registers and memory of a state the unpipelined machine reaches — and for a program without jumps that state is its
+final one (with jumps it need not be: R60-defect-1). -/
+theorem mvp60_j_runpost (app : App) (hp : ProgJ app) (ctx : Model.Context) (hc : CtxOk ctx) (K fuel : Nat)
+    (hsid : ctx.sequenceID = 0 ∨ NoCond app)
+    (hT : ∀ k a, Proofs.Mvp4.seqIter app k ⟨ctx, 0#32⟩ = some a → TgtOk app a) :
+    RunPost app ⟨ctx, 0#32⟩ (run app ctx K K fuel) := by
+  obtain ⟨s0, hinit, hR⟩ := init_relG app ctx hc K K rfl hsid
+  have hrun : run app ctx K K fuel = runFrom app fuel s0 0 := by unfold run; rw [hinit]
+  rw [hrun]
+  exact runFrom_sim app hp ⟨ctx, 0#32⟩ hT fuel s0 0 0 ⟨ctx, 0#32⟩ rfl (Or.inl hR)
+
+/-- the same against MVP-1's run: `ret` and the defined error -/
+theorem mvp60_j_refines_mvp1 (app : App) (hp : ProgJ app) (ctx : Model.Context) (hc : CtxOk ctx) (K fuel : Nat) (hk : Halt)
+    (hsid : ctx.sequenceID = 0 ∨ NoCond app)
+    (hT : ∀ k a, Proofs.Mvp4.seqIter app k ⟨ctx, 0#32⟩ = some a → TgtOk app a)
+    (hh : (run app ctx K K fuel).halt = some hk) (hnp : ∀ w, hk ≠ .panic w) (hoff : hk = .offEnd → NoJmp app) :
+    ∃ n, (runMvp1 app ⟨ctx, 0#32⟩ n).halt = some hk ∧
+      (hk ≠ .err →
+        (run app ctx K K fuel).final.ctx.Registers = (runMvp1 app ⟨ctx, 0#32⟩ n).final.ctx.Registers ∧
+        (run app ctx K K fuel).final.ctx.Memory = (runMvp1 app ⟨ctx, 0#32⟩ n).final.ctx.Memory) := by
+  have hpost := mvp60_j_runpost app hp ctx hc K fuel hsid hT
+  unfold RunPost at hpost
+  rw [hh] at hpost
+  cases hk with
+  | ret =>
+    obtain ⟨k, a, hit, ⟨c, hs⟩, hf1, hf2⟩ := hpost
+    obtain ⟨h1, h2⟩ := Proofs.Mvp4.run_halts mvp1Fetch app hit hs 0
+    exact ⟨k + (0 + 1), h1, fun _ => by unfold runMvp1; rw [h2]; exact ⟨hf1, hf2⟩⟩
+  | offEnd =>
+    obtain ⟨k, a, hit, hoe, hf1, hf2⟩ := hpost
+    obtain ⟨c, hs⟩ := hoe (hoff rfl)
+    obtain ⟨h1, h2⟩ := Proofs.Mvp4.run_halts mvp1Fetch app hit hs 0
+    exact ⟨k + (0 + 1), h1, fun _ => by unfold runMvp1; rw [h2]; exact ⟨hf1, hf2⟩⟩
+  | err =>
+    obtain ⟨k, a, hit, c, hs⟩ := hpost
+    obtain ⟨h1, _⟩ := Proofs.Mvp4.run_halts mvp1Fetch app hit hs 0
+    exact ⟨k + (0 + 1), h1, fun hne => absurd rfl hne⟩
+  | panic w => exact absurd rfl (hnp w)
 
 /-- **MVP-6.0 refines the unpipelined machine on the proved class, for every number of execute and write units**
 (package R60b, K ≥ 2 continuation): see `mvp60_g_refines_mvp1`, whose hypothesis `K ≤ 1 ∨ NoCond app` is no longer needed -/
@@ -121,27 +167,9 @@ theorem mvp60_g_refines_mvp1_wide (app : App) (hp : ProgG app) (ctx : Model.Cont
     ∃ n, (runMvp1 app ⟨ctx, 0#32⟩ n).halt = some hk ∧
       (hk ≠ .err →
         (run app ctx K K fuel).final.ctx.Registers = (runMvp1 app ⟨ctx, 0#32⟩ n).final.ctx.Registers ∧
-        (run app ctx K K fuel).final.ctx.Memory = (runMvp1 app ⟨ctx, 0#32⟩ n).final.ctx.Memory) := by
-  obtain ⟨s0, hinit, hR⟩ := init_relG app ctx hc K K rfl hsid
-  have hrun : run app ctx K K fuel = runFrom app fuel s0 0 := by unfold run; rw [hinit]
-  rw [hrun] at hh ⊢
-  have hpost := runFrom_sim app hp ⟨ctx, 0#32⟩ fuel s0 0 0 ⟨ctx, 0#32⟩ rfl (Or.inl hR)
-  unfold RunPost at hpost
-  rw [hh] at hpost
-  cases hk with
-  | ret =>
-    obtain ⟨k, a, hit, ⟨c, hs⟩, hf1, hf2⟩ := hpost
-    obtain ⟨h1, h2⟩ := Proofs.Mvp4.run_halts mvp1Fetch app hit hs 0
-    exact ⟨k + (0 + 1), h1, fun _ => by unfold runMvp1; rw [h2]; exact ⟨hf1, hf2⟩⟩
-  | offEnd =>
-    obtain ⟨k, a, hit, ⟨c, hs⟩, hf1, hf2⟩ := hpost
-    obtain ⟨h1, h2⟩ := Proofs.Mvp4.run_halts mvp1Fetch app hit hs 0
-    exact ⟨k + (0 + 1), h1, fun _ => by unfold runMvp1; rw [h2]; exact ⟨hf1, hf2⟩⟩
-  | err =>
-    obtain ⟨k, a, hit, c, hs⟩ := hpost
-    obtain ⟨h1, _⟩ := Proofs.Mvp4.run_halts mvp1Fetch app hit hs 0
-    exact ⟨k + (0 + 1), h1, fun hne => absurd rfl hne⟩
-  | panic w => exact absurd rfl (hnp w)
+        (run app ctx K K fuel).final.ctx.Memory = (runMvp1 app ⟨ctx, 0#32⟩ n).final.ctx.Memory) :=
+  mvp60_j_refines_mvp1 app hp.toJ ctx hc K fuel hk hsid (fun _ a _ => tgtOk_of_proved app hp.cls a) hh hnp
+    (fun _ => noJmp_of_proved app hp.cls)
 
 /-- **MVP-6.0 with at most one execute unit refines the unpipelined machine on the proved class** (register-only programs
 with conditional branches and `ret`, `Model.Mvp60.ProvedClass`): every installable initial context with `sequenceID = 0`
